@@ -98,7 +98,7 @@ class Closure:
 
 class Frame:
     __slots__ = ('info', 'locals', 'enclosing', 'gen', 'first_arg', 'defcls', 'loop_counter', 'call_counter',
-                 'reduce_counter', 'reduce_site', 'loop_index', 'map_counter', 'lib_site')
+                 'reduce_counter', 'reduce_site', 'join_counter', 'model_site', 'loop_index', 'map_counter')
 
     def __init__(self, info, locals_, enclosing, first_arg=None, defcls=None):
         self.info = info
@@ -111,9 +111,10 @@ class Frame:
         self.call_counter = 0
         self.reduce_counter = 0
         self.reduce_site = None
+        self.join_counter = 0
+        self.model_site = None
         self.loop_index = {}
         self.map_counter = 0
-        self.lib_site = None
 
 
 class PartialObj:
@@ -316,6 +317,15 @@ class Interp:
             raise Unsupported('nonlocal %s not found' % name)
         if name in info.global_names:
             raise Unsupported('assignment to global %s' % name)
+        if type(value) is list and self.reg.local_shapes:
+            declared = self.reg.local_shapes.get(info)
+            if declared and name in declared:
+                # contract-directed representation: this local list is a symbolic mutable list from the start
+                from .mlist import MList, from_concrete
+                if value:
+                    value = from_concrete(self, value, name)
+                else:
+                    value = MList(self, self.st.fresh_name(name), declared[name].shape())
         frame.locals[name] = value
 
     @staticmethod
@@ -466,14 +476,20 @@ class Interp:
             # a contract stated in ANOTHER sidecar module speaks about arguments of its own shapes only:
             # for arguments of other shapes it says nothing and the real body is interpreted instead
             cur = getattr(self.reg, 'current_module', None)
-            policy = getattr(cur, 'foreign_contracts', 'apply')
-            if getattr(c, 'module', None) is cur or policy == 'apply' or \
+            policy = getattr(cur, 'foreign_contracts', 'imports')
+            owner_mod = getattr(c, 'module', None)
+            if owner_mod is cur or cur is None or policy == 'apply' or \
+                    (policy == 'imports' and getattr(owner_mod, 'prop', None) in getattr(cur, 'uses', ())) or \
+                    (policy == 'imports' and getattr(owner_mod, 'prop', None) == getattr(cur, 'prop', None)) or \
                     (policy == 'fit' and self.reg.args_fit_contract(self, c, func, args, kwargs)):
                 return self.reg.apply_contract(self, c, func, args, kwargs)
         m = self.reg.model_for(func)
         if m is not None:
             self.st.used_models.add(_qn(func))
             return m(self, args, kwargs)
+        if getattr(func, '_pv_recursive', False):
+            from . import models
+            return models.call_recursive_spec(self, func, args, kwargs)
         code = func.__code__
         if is_interpretable_file(code.co_filename):
             return self.call_real_function(func, args, kwargs, defcls)
@@ -529,6 +545,7 @@ class Interp:
         if m is None:
             m = models.lookup_model(cls)
         if m is not None:
+            self.st.used_models.add(_qn(cls))
             return m(self, args, kwargs)
         if issubclass(cls, enum.Enum) and len(args) == 1 and not kwargs and isinstance(args[0], SChoice):
             # Enum(value) for one of finitely many values: the member per alternative
@@ -602,7 +619,7 @@ class Interp:
                 return wrap(to_z3(obj.pos)) if not isinstance(obj.pos, int) else obj.pos
             if name == 'xs':
                 return obj.xs
-        if isinstance(obj, (_models.SMap, _models.SIter)):
+        if isinstance(obj, (_models.SMap, _models.SIter, _models.SMapProxy)):
             return SymMethod(obj, name)
 
         if isinstance(obj, SuperProxy):
@@ -751,6 +768,9 @@ class Interp:
             return self.truth(self.resolve(v))
         if isinstance(v, SList):
             return wrap(v.length > 0)
+        from . import models as _m
+        if isinstance(v, _m.SMap):
+            return wrap(z3.Not(v.has == z3.K(v.ksort, z3.BoolVal(False))))
         if isinstance(v, (int, str, list, tuple, dict, set, frozenset, float, bytes)):
             return bool(v)
         if isinstance(v, Opaque):
@@ -779,6 +799,11 @@ class Interp:
             a = self.resolve(a)
         if isinstance(b, (SOpt, SChoice)):
             b = self.resolve(b)
+        if isinstance(a, Opaque) or isinstance(b, Opaque):
+            # operator on an object known through an interface: the interface's __op__ / __rop__ method
+            r = self._opaque_binop(opcls, a, b)
+            if r is not NotImplemented:
+                return r
         if isinstance(a, SBool):
             a = SInt(z3.If(a.t, 1, 0))
         if isinstance(b, SBool):
@@ -841,6 +866,20 @@ class Interp:
             raise PyRaise(TypeError('unsupported operand types for +'))
         raise Unsupported('binary operator %s on %r, %r' % (opcls.__name__, type(a).__name__, type(b).__name__))
 
+    _OPAQUE_DUNDER = {ast.Add: 'add', ast.Sub: 'sub', ast.Mult: 'mul', ast.Div: 'truediv', ast.FloorDiv: 'floordiv',
+                      ast.Mod: 'mod', ast.BitOr: 'or', ast.BitAnd: 'and', ast.BitXor: 'xor', ast.Pow: 'pow',
+                      ast.LShift: 'lshift', ast.RShift: 'rshift', ast.MatMult: 'matmul'}
+
+    def _opaque_binop(self, opcls, a, b):
+        nm = self._OPAQUE_DUNDER.get(opcls)
+        if nm is None:
+            return NotImplemented
+        if isinstance(a, Opaque) and self.reg.opaque_has(self, a, '__%s__' % nm):
+            return self.reg.call_opaque(self, a, '__%s__' % nm, [b], {})
+        if isinstance(b, Opaque) and self.reg.opaque_has(self, b, '__r%s__' % nm):
+            return self.reg.call_opaque(self, b, '__r%s__' % nm, [a], {})
+        return NotImplemented
+
     def _user_binop(self, opcls, a, b):
         names = _DUNDER.get(opcls)
         if names is None:
@@ -873,7 +912,21 @@ class Interp:
                             if all(isinstance(self.eq(alt, b), bool) for alt in a.alts) else self._eq_resolved(a, b))
             if isinstance(b, SChoice) and not isinstance(a, Sym):
                 return self.eq(b, a)
+            if isinstance(a, SChoice) and isinstance(b, SChoice) and \
+                    all(isinstance(x, enum.Enum) for x in a.alts + b.alts):
+                hits = [z3.And(a.idx == i, b.idx == k) for i, x in enumerate(a.alts)
+                        for k, y in enumerate(b.alts) if x == y]
+                return wrap(z3.Or(*hits)) if hits else False
             return self._eq_resolved(a, b)
+        from . import models as _m
+        if isinstance(a, _m.SMapProxy):
+            a = a.m
+        if isinstance(b, _m.SMapProxy):
+            b = b.m
+        if isinstance(a, _m.SMap):
+            return a.eq(self, b)
+        if isinstance(b, _m.SMap):
+            return b.eq(self, a)
         sa, sb = isinstance(a, Sym), isinstance(b, Sym)
         if sa or sb:
             if isinstance(a, SList) or isinstance(b, SList):
@@ -903,7 +956,7 @@ class Interp:
                 r = self.reg.opaque_eq(self, a, b)
                 if r is not NotImplemented:
                     return r
-            return a is b
+            return self.is_(a, b)
         if not isinstance(a, (int, str, float, bytes, type(None), tuple, list, dict, set, frozenset, enum.Enum, type)):
             m = _static_lookup(type(a), '__eq__')
             if m is not None and isinstance(m[0], types.FunctionType) and _is_repo_function(m[0]):
@@ -997,6 +1050,11 @@ class Interp:
             if _kind(a) != _kind(b):
                 return False
             raise Unsupported("'is' on symbolic int/str")
+        if isinstance(a, Opaque) and isinstance(b, Opaque) and a is not b:
+            from .api import same_object
+            r = same_object(a, b)
+            if r is not None:
+                return r
         if a is not b and isinstance(a, Opaque) and isinstance(b, Opaque) and a._pv_uid == b._pv_uid \
                 and a._pv_index and len(a._pv_index) == len(b._pv_index) \
                 and all(x.sort() == y.sort() for x, y in zip(a._pv_index, b._pv_index)):
@@ -1024,6 +1082,8 @@ class Interp:
         from . import models as _m
         if isinstance(container, _m.SMap):
             return container.contains(self, x)
+        if isinstance(container, (_m.SMapKeys, _m.SMapProxy)):
+            return container.m.contains(self, x)
         if isinstance(container, (list, tuple, set, frozenset)) or isinstance(container, (dict,)) or \
                 type(container).__name__ in ('dict_keys', 'dict_values', 'mappingproxy'):
             if not contains_sym(x, 0) and not contains_sym(container, 1) and not isinstance(x, (tuple, list)):
@@ -1182,6 +1242,19 @@ class Interp:
 
     def e_IfExp(self, node, frame):
         c = self.eval(node.test, frame)
+        if self.st.no_fork:
+            # inside a quantifier body a case split is not possible: a conditional expression with scalar
+            # branches becomes an if-then-else term (each branch evaluated under its condition)
+            t = self.truth(c)
+            if not isinstance(t, bool):
+                with self.st.scope(t.t):
+                    a = self.eval(node.body, frame)
+                with self.st.scope(z3.Not(t.t)):
+                    b = self.eval(node.orelse, frame)
+                ka, kb = _kind(a), _kind(b)
+                if ka is not None and ka == kb and ka != 'none':
+                    return wrap(z3.If(t.t, to_z3(a), to_z3(b)))
+                raise Unsupported('conditional expression with non-scalar branches inside a quantifier body')
         if self.branch(c):
             return self.eval(node.body, frame)
         return self.eval(node.orelse, frame)
@@ -1243,7 +1316,15 @@ class Interp:
                     # a symbolic key: the dict becomes a symbolic map (values not tracked)
                     from . import models
                     if not isinstance(d, models.SMap):
-                        d = models.smap_of_dict(self, d, kk)
+                        from .api import Str as _StrTy, Int as _IntTy
+                        kv = models.SMap._key_value(self, kk)
+                        if isinstance(kv, (SStr, str)):
+                            kty = _StrTy
+                        elif isinstance(kv, (SInt, int)) and not isinstance(kv, bool):
+                            kty = _IntTy
+                        else:
+                            raise Unsupported('dict display with symbolic key %r' % (kk,))
+                        d = models.smap_of_dict(self, kty, None, d)
                     d.setitem(self, kk, self.eval(v, frame))
                     continue
                 if isinstance(d, dict):
@@ -1270,7 +1351,7 @@ class Interp:
             obj = self.resolve(obj)
         if isinstance(idx, (SOpt, SChoice)):
             idx = self.resolve(idx)
-        if isinstance(obj, (SStr, SList)) or (isinstance(obj, str) and _slice_sym(idx)):
+        if isinstance(obj, (SStr, SList, models.SMap, models.SMapProxy)) or (isinstance(obj, str) and _slice_sym(idx)):
             return models.sym_getitem(self, obj, idx)
         if isinstance(obj, Opaque):
             return self.reg.call_opaque(self, obj, '__getitem__', [idx], {})
